@@ -101,14 +101,29 @@ func cancelScenario(w *world, cfg worldCfg, sc string, target int) (dv *vh.Diver
 		s.store.prevRoot = hold
 	}
 	s.start()
-	synctest.Wait()
+	// The peers answer after a millisecond of FAKE time, and fake time passes only while this
+	// goroutine is blocked as well (synctest.Wait alone returns as soon as the others sleep): sleep in
+	// small steps until the held goroutine is at its gate. Everything here runs on the fake clock, so
+	// the number of steps does not depend on the load of the machine.
 	switch sc {
 	case "cancel-during-compile", "cancel-during-prev-root-read":
+		for i := 0; i < 20_000 && !hold.waiting(); i++ {
+			time.Sleep(time.Millisecond)
+			synctest.Wait()
+		}
 		if !hold.waiting() {
-			return &vh.Divergence{Key: "p2psync:harness", What: sc + ": the goroutine never reached the gate"}
+			return &vh.Divergence{Key: "p2psync:harness", What: sc + ": the goroutine never reached the gate (20 s of fake time)"}
 		}
 	case "cancel-while-consumer-away":
 		// the verified body is waiting in Bridge's send on Listen(); nobody takes it
+		time.Sleep(time.Second)
+		synctest.Wait()
+		if gs := junoGoroutines("utils/pipeline.Bridge"); len(gs) == 0 {
+			return &vh.Divergence{Key: "p2psync:harness", What: sc + ": no body is being offered on Listen() after a second of fake time"}
+		}
+	case "cancel-while-waiting-for-parts":
+		time.Sleep(time.Second) // well before the 10 s read deadline of the unanswered request
+		synctest.Wait()
 	}
 	s.cancel()
 	synctest.Wait()
